@@ -16,7 +16,8 @@ TYPING = {1: "initializer", 2: "call argument", 3: "constructor argument", 4: "s
           5: "function result", 6: "conditional branch", 7: "assignment", 8: "type argument outside its bound",
           16: "abstract member not implemented", 17: "incompatible override", 18: "inheritance from a final class",
           19: "default value", 20: "condition is not Boolean",
-          27: "projection on a type parameter that another parameter's bound mentions"}
+          27: "projection on a type parameter that is the bound of another parameter with a concrete argument",
+          28: "type argument of a type occurrence outside its parameter's bound"}
 SCOPING = {9: "unresolved variable", 10: "unresolved function", 11: "unresolved field", 12: "unresolved class",
            13: "wrong number of arguments", 14: "assignment to a final variable/field",
            15: "instantiation of a non-regular class", 21: "identifier declared twice in one scope",
@@ -50,6 +51,20 @@ def parse_errs(v):
         m = re.match(r"\(\[([0-9; ]*)\], (\d+), (.*)\)$", it, re.S)
         if m:
             out.append(([int(x) for x in m.group(1).split(";") if x.strip()], int(m.group(2)), m.group(3)))
+    return out
+
+
+def generic_bound_classes(node, ser):
+    """class ids that have a type parameter whose bound is a parameterized type"""
+    out = set()
+    inv = {v: k for k, v in ser.names.items()}
+    for d in node[5]:
+        if d[0] == 1:
+            for t in d[4]:
+                if t and t != ("none",) and t[0] == "V" and t[3] is not None and t[3][0] == "A":
+                    nm = inv.get(d[1])
+                    if nm in ser.classes:
+                        out.add(ser.classes[nm])
     return out
 
 
@@ -222,20 +237,28 @@ def run(pid, codes, tier, seed, what):
             nviol += 1
             binp = os.path.join(C.REPLAYS, pid, "prog-%s-%d-%d.bin" % (it["lang"], it["combo"], it["seed"]))
             open(binp, "wb").write(pickle.dumps(it["program"]))
-            path, code, detail = mine[0]
-            nd = W.node_at(it["node"], path)
-            nm = [k for k, v in it["ser"].names.items() if nd and v == nd[1]]
-            kind = codes[code]
             dep = dependent_bound_classes(it["node"], it["ser"])
-            mm = re.findall(r"TApp (\d+) ", detail)
-            if code in (1, 2, 3, 5, 6, 7) and len(mm) >= 2 and re.match(r"Some \(TApp (\d+) ", detail) and \
-                    len({m_ for m_ in re.findall(r"Some \(TApp (\d+) ", detail)}) == 1 and int(mm[0]) in dep:
-                kind = "dependent-generic-bound"
-            rep.violation(kind, "%s (switch combination %d, seed %d): %s at node path %s (%s%s): %s" % (
-                it["lang"], it["combo"], it["seed"], codes[code], path,
-                {v: k for k, v in ir2coq.K.items()}.get(nd[0]) if nd else "?", " " + nm[0] if nm else "", detail[:300]),
-                dict(lang=it["lang"], combo=it["combo"], seed=it["seed"], program_bin=binp, shape=kind,
-                     errors=[dict(path=p_, code=c_, what=codes[c_], types=d_[:400]) for p_, c_, d_ in mine[:10]]))
+            gen = generic_bound_classes(it["node"], it["ser"])
+            inv_kind = {v: k for k, v in ir2coq.K.items()}
+            seen_kinds = set()
+            for path, code, detail in mine:
+                kind = codes[code]
+                mm = re.findall(r"TApp (\d+) ", detail)
+                if code in (1, 2, 3, 5, 6, 7) and len(mm) >= 2 and re.match(r"Some \(TApp (\d+) ", detail) and \
+                        len({m_ for m_ in re.findall(r"Some \(TApp (\d+) ", detail)}) == 1 and int(mm[0]) in dep:
+                    kind = "dependent-generic-bound"
+                if code == 28 and mm and int(mm[0]) in gen:
+                    kind = "typearg-outside-generic-bound"
+                if kind in seen_kinds:
+                    continue
+                seen_kinds.add(kind)
+                nd = W.node_at(it["node"], path)
+                nm = [k for k, v in it["ser"].names.items() if nd and v == nd[1]]
+                rep.violation(kind, "%s (switch combination %d, seed %d): %s at node path %s (%s%s): %s" % (
+                    it["lang"], it["combo"], it["seed"], codes[code], path,
+                    inv_kind.get(nd[0]) if nd else "?", " " + nm[0] if nm else "", detail[:300]),
+                    dict(lang=it["lang"], combo=it["combo"], seed=it["seed"], program_bin=binp, shape=kind,
+                         errors=[dict(path=p_, code=c_, what=codes[c_], types=d_[:400]) for p_, c_, d_ in mine[:10]]))
     if pid == "C05":
         # the mechanism behind "never a reserved word": after the per-program reset the identifier pool
         # contains no word one of whose forms (as is / lower / capitalized) is reserved
